@@ -226,6 +226,11 @@ example : Ascending [0, 604800, 1209600] ∧ DayAligned [0, 604800, 1209600] := 
   simp only [List.mem_cons, List.not_mem_nil, or_false] at hp
   rcases hp with rfl | rfl | rfl <;> decide
 
+/-- the `DayAligned` hypothesis cannot be dropped: the map is per whole day, so with a boundary 1.5 days after the first one a
+    timestamp 28 hours in (period 0) is put into period 1 — same as the real code. `get_periods` only produces aligned lists. -/
+example : bucket [100800] none [0, 129600, 259200] = .ok [1] ∧ InPeriod [0, 129600, 259200] 0 100800 :=
+  ⟨by rfl, 0, 129600, rfl, rfl, by decide, by decide⟩
+
 /-- … and with the boundaries coming from `get_periods` (either sign of `delta`, days or weeks, any valid range including one
     shorter than a period or touching `datetime.min`/`datetime.max`): every step of the pipeline returns, and each row gets the
     index of the generated period that contains its timestamp, or −1. `ascBoundaries start step n` is
